@@ -74,5 +74,5 @@ def run(chk):
         abandon_traces(chk, d, 500 if thorough else 150)
         # modes: 1 thread exit; +8 reclaim on free; +16 OS segments; +32 forced abandonment; +64 only frees adopt; +4 huge/aligned mix
         modes = (1, 9, 17, 25, 33, 73, 5) if thorough else (1, 9, 25, 73, 33)
-        t3common.stress(chk, d, 200 if thorough else 10, modes=modes, ops=160,
+        t3common.stress(chk, d, 300 if thorough else 40, modes=modes, ops=160,
                         keys=('double_handout', 'content_changed', 'blocks_left_behind', 'abandoned_left_behind', 'abandoned_count_underflow', 'alloc_failed', 'misaligned', 'usable_lt_size'))
